@@ -4,7 +4,7 @@ import itertools
 
 BEH9 = ["ok", "fail", "error", "skip", "xfail", "uxs", "multi", "kbd", "exit"]
 RAISE_KINDS = ["fail", "error", "skip", "xfail", "uxs", "kbd", "exit", "kbdsub", "exitsub", "basedirect",
-               "skipsub", "failsub", "mismatch", "xfail_err", "skip_empty", "skip2", "unhashable"]
+               "skipsub", "failsub", "mismatch", "xfail_err", "skip_empty", "skip2", "unhashable", "surrogate"]
 
 
 class Tok:
